@@ -312,12 +312,14 @@ fn rtree_search_vs_scan(n: usize, b: u32, two_chroms: bool) {
 // @mem 24
 // @functions bbiwrite::{get_rtreeindex, write_rtreeindex, calculate_offsets, write_tree} -> bytes -> bbiread::{search_cir_tree_inner, CirTreeBlockSearchIter::next, read_node, cir_tree_leaf_items, cir_tree_non_leaf_items, nodes_overlapping, overlaps}
 // @bounds 3 blocks, fan-out 2 (2-level tree, partly filled last leaf); block spans full u32 width on one chromosome; arbitrary query (chromosome 0 or 1)
+// @stubs alloc::fmt::format -> empty; Vec::push -> push within capacity (asserted)
 // @assumes blocks sorted by start with start <= end (as the writers emit them); native byte order
 // @cut deeper / wider trees (thorough tier); zoom-level indexes use the same functions
 // @witness cover: query hits every block; query hits nothing
 #[kani::proof]
 #[kani::unwind(6)]
 #[kani::stub(alloc::fmt::format, fake_format)]
+#[kani::stub(alloc::vec::Vec::push, push_within_capacity)]
 fn c05_search_vs_scan_n3_b2() {
     rtree_search_vs_scan(3, 2, false);
 }
